@@ -4,4 +4,8 @@ let table : (string * (z list list list -> z list list)) list = [
   ("rd_model", e_rd_model);
   ("rd_spec", e_rd_spec);
   ("rd_oracle", e_rd_oracle);
+  ("pio_model", e_pio_model);
+  ("pio_spec", e_pio_spec);
+  ("pio_oracle", e_pio_oracle);
+  ("xor_model", e_xor_model);
 ]
